@@ -122,6 +122,43 @@ def run_case(args):
                 stmts.append("<tick>")
                 rl.cmd({"op": "tick", "secs": 1})
         res["rowsets_hint"] = nins
+        # one INSERT that reaches storage in several chunks (the executor cuts at 1024 rows): the first chunk arrives in key order,
+        # the later ones hold smaller keys and are in no order - whatever the write path does with a chunk (sort it, take it for
+        # sorted), the row-set must come out sorted on the key as a whole. (Drawn from a stream of its own.)
+        rng2 = random.Random(f"c12b-{seed}-{idx}")
+        if keycols and rng2.random() < 0.3 and t.cols[keycols[0]].typ in ("INT", "BIGINT", "SMALLINT", "VARCHAR"):
+            nbig = rng2.choice([1030, 1500, 2100])
+            first = list(range(5000, 5000 + 1024))
+            rest = rng2.sample(range(1000, 5000), nbig - 1024)
+            if rng2.random() < 0.3:
+                rest.sort()   # every chunk sorted on its own, the chunks overlapping
+            rows = []
+            for kv in first + rest:
+                row = [gen_value(rng2, c, null_p=0.2) for c in t.cols]
+                for i in keycols:
+                    c = t.cols[i]
+                    if i == keycols[0]:
+                        row[i] = kv if c.typ != "VARCHAR" else f"k{kv:05d}"
+                    elif c.typ in ("INT", "BIGINT", "SMALLINT"):
+                        row[i] = rng2.randint(lo, hi)
+                    elif c.typ == "VARCHAR":
+                        row[i] = rng2.choice("abcdefgh") + str(rng2.randint(0, 40))
+                    elif row[i] is None:
+                        row = None
+                        break
+                if row is not None:
+                    rows.append(row)
+            vals = ", ".join("(" + ", ".join(lit(v, c.typ) for v, c in zip(x, t.cols)) + ")" for x in rows)
+            s = f"INSERT INTO t VALUES {vals}"
+            stmts.append(s)
+            r = rl.sql(s, timeout=120)
+            if not r["ok"]:
+                res["inconclusive"] = "big insert failed: " + r.get("err", "")[:60]
+                return res
+            res["feats"]["multi-chunk-insert"] = 1
+            if engine == "disk" and rng2.random() < 0.3:
+                stmts.append("<tick>")
+                rl.cmd({"op": "tick", "secs": 1})
         if rng.random() < 0.3:
             # planned with a wrong row estimate (the optimizer may only use it to choose between equivalent plans)
             s = f"SET mock_rowcount_t = {rng.choice([0, 1, 3, 10, 1000])}"
